@@ -194,6 +194,9 @@ def main():
     cov.update(mc)
     factors = {"evaluation": ["scalar", "vector", "vector_reuse", "blobs", {"pool": "perm"}, {"pool": 1}], "sample": ["tpcn", "rwm"], "clustering": [True, False], "resample": ["mult", "syst"]}
     jobs = sysrun.product_jobs(factors, {"n_particles": 8}, ck.seed + 13, limit=24 if ck.tier == "quick" else None)
+    for k, j in enumerate(jobs):
+        if k % 3 == 0:
+            j["manual_iters"] = 2
     sc, traces = sysrun.system_part(ck, "C13", jobs, lambda t: (t["meta"]["label"], t["meta"]["seed"]) if any(e["ev"] == "MutateEnd" for e in t["events"]) else None)
     cov.update(sc)
     pc = pair_part(ck)
